@@ -29,7 +29,10 @@ RULE = ('cases: (a) bit patterns -- all 2**16 half patterns exhaustively in both
         'complement: all (w,v) for w<=10, boundary values for w in {16,32,64,65}; (c) FPNum add/sub/mul/compare on pairs drawn '
         'from boundary patterns of all three formats, floats, raw (s,e,m,p) tuples and results of earlier operations, judged as '
         'Fractions; (d) FixedPoint helper on all formats (1,iw<=4,fw<=4): all operand pairs when w<=6 (quick) / all formats (thorough), '
-        'boundary x boundary + random otherwise.  evaluations = helper calls judged.  A case is non-trivial when it is not the '
+        'boundary x boundary + random otherwise; (e) Python floats (doubles, mostly NOT singles) within +-1 single-ulp of every '
+        'single-precision anchor (every exponent field x mantissa boundaries: zero, smallest/largest subnormal, smallest normal, powers of two, '
+        'all-ones mantissas, largest finite, random) in eighths of an ulp incl. exact ties, nextafter neighbours of anchors and ties, both '
+        'signs, plus random 52-bit doubles and doubles outside the single range -- compared with struct \'<f\'.  evaluations = helper calls judged.  A case is non-trivial when it is not the '
         'all-zero pattern / value / operand pair; distinct by content (format, pattern | w, v | operand descriptors | format, x, y); in the thorough tier only the '
         'cases whose content hash is 0 mod 4 are registered, so distinct_nontrivial is a lower bound there (keeps the merged set small)')
 SHARDS = {'quick': 1, 'thorough': 16}
@@ -681,13 +684,146 @@ def fxp_cases(tier, seed, shard):
 
 # --------------------------------------------------------------------------- driver
 
+# --------------------------------------------------------------------------- (e) Python floats around single-precision boundaries
+
+def platform_sp(x):
+    """The platform's single-precision encoding of a double (round to nearest even); struct refuses to round a finite
+    value to infinity, IEEE-754 does."""
+    try:
+        return struct.unpack('<I', struct.pack('<f', x))[0]
+    except OverflowError:
+        return 0xFF800000 if x < 0 else 0x7F800000
+
+
+def judge_float(case):
+    """A Python float that is in general NOT a single: FloatingPointHelper.sp_to_ieee754(_parts) must round it the way the
+    platform does; as a double it is always representable, so dp_to_ieee754 / FPNum(x) / convert('dp') must be exact."""
+    FPNum, F, _, _, _ = _helpers()
+    x = float.fromhex(case['x']) if isinstance(case['x'], str) else case['x']
+    out = []
+    n = [0]
+    exp = platform_sp(x)
+    cls = value_class('sp', exp)
+    back = ref_float('sp', exp)
+    if back == x:
+        inp = 'exactly_a_single'
+    elif not math.isinf(back) and abs(Fraction(x) - Fraction(back)) * 2 == Fraction(ulp_sp(exp)):
+        inp = 'exact_tie_between_two_singles'
+    else:
+        inp = 'between_two_singles'
+
+    def fail(fmt, stage, function, family, rel, expected, observed):
+        out.append(V('%s_%s_%s' % (fmt, cls if fmt == 'sp' else value_class('dp', struct.unpack('<Q', struct.pack('<d', x))[0]), stage),
+                     dict(fmt=fmt, value_class=cls, stage=stage, function=function, family=family, relation=rel, input=inp),
+                     expected, observed, '%s(%r = %s) [%s]: expected %s observed %s [%s]' % (function, x, x.hex(), inp, expected, observed, rel)))
+
+    def call(fmt, stage, function, family, fn):
+        n[0] += 1
+        try:
+            with muted():
+                return True, fn()
+        except Exception as e:
+            fail(fmt, stage, function, family, 'raises:' + type(e).__name__, None, repr(e)[:120])
+            return False, None
+
+    ok, r = call('sp', 'round', 'FloatingPointHelper.sp_to_ieee754', 'FloatingPointHelper.to_ieee754', lambda: F.sp_to_ieee754(x))
+    if ok and r != exp:
+        fail('sp', 'round', 'FloatingPointHelper.sp_to_ieee754', 'FloatingPointHelper.to_ieee754', pattern_relation('sp', r, exp), hex(exp), hx(r))
+    ok, r = call('sp', 'round', 'FloatingPointHelper.sp_to_ieee754_parts', 'FloatingPointHelper.to_ieee754', lambda: F.sp_to_ieee754_parts(x))
+    if ok:
+        # the parts must denote the platform's word: s | e<<23 | m taken as an integer sum (a mantissa of 2**23 with e = 0
+        # is the smallest normal -- the carry of a subnormal that rounds up)
+        try:
+            s_, e_, m_ = r
+            word = (s_ << 31) + (e_ << 23) + m_
+        except Exception:
+            word = None
+        if word != exp:
+            fail('sp', 'round', 'FloatingPointHelper.sp_to_ieee754_parts', 'FloatingPointHelper.to_ieee754',
+                 pattern_relation('sp', word, exp) if word is not None else 'not_three_ints', fields('sp', exp), r)
+    # as a double the value is exactly representable
+    dpat = struct.unpack('<Q', struct.pack('<d', x))[0]
+    ok, r = call('dp', 'encode', 'FloatingPointHelper.dp_to_ieee754', 'FloatingPointHelper.to_ieee754', lambda: F.dp_to_ieee754(x))
+    if ok and r != dpat:
+        fail('dp', 'encode', 'FloatingPointHelper.dp_to_ieee754', 'FloatingPointHelper.to_ieee754', pattern_relation('dp', r, dpat), hex(dpat), hx(r))
+    ok, num = call('dp', 'decode', 'FPNum(float)', 'FPNum.convert_float_to_semp', lambda: FPNum(x))
+    if ok:
+        n[0] += 1
+        val = fpnum_value(num)
+        if val != Fraction(x):
+            fail('dp', 'decode', 'FPNum(float).components', 'FPNum.convert_float_to_semp', relation(val, Fraction(x)) if val is not None else 'flagged_nonfinite',
+                 str(Fraction(x)), str(val))
+        else:
+            ok, r = call('dp', 'encode', 'FPNum(float).convert', 'FPNum.convert', lambda: num.convert('dp'))
+            if ok and r != dpat:
+                fail('dp', 'encode', 'FPNum(float).convert', 'FPNum.convert', pattern_relation('dp', r, dpat), hex(dpat), hx(r))
+    return n[0], out
+
+
+def ulp_sp(v):
+    """Spacing of the singles in the binade of the finite pattern v, as a Fraction."""
+    e = (v >> 23) & 0xFF
+    return Fraction(2) ** (max(e, 1) - 150)
+
+
+def float_cases(tier, seed, shard):
+    """Doubles in the +-1 ulp neighbourhood of single-precision anchors: eighths of an ulp on both sides (exact ties included),
+    the nextafter neighbours of every tie and of the anchor itself, both signs.  Anchors: every exponent field with the
+    mantissa boundary patterns (so: zero, smallest/largest subnormal, smallest normal, every power of two, every all-ones
+    mantissa, largest finite) plus random patterns; then doubles far outside the single range."""
+    rnd = rng(seed, 'C12', 'floats', shard)
+    i, nsh = shard if shard else (0, 1)
+    quick = tier == 'quick'
+    k = 0
+    eighths = [Fraction(j, 8) for j in range(1, 9)]
+    for e in range(0, 255):
+        edge = e < 3 or e > 251 or 125 <= e <= 129
+        ms = [0, 1, 0x7FFFFF]
+        if edge or not quick:
+            ms += [2, 0x400000, 0x3FFFFF, 0x7FFFFE]
+        ms += [rnd.getrandbits(23) for _ in range(1 if quick else 6)]
+        for m in ms:
+            k += 1
+            if k % nsh != i:
+                continue
+            p = (e << 23) | m
+            v = ref_value('sp', p)
+            up = ulp_sp(p)
+            dn = ulp_sp(p - 1) if p > 0 else up            # below a power of two the singles are twice as dense
+            xs = {v}
+            for q in eighths:
+                xs.add(v + q * up)
+                xs.add(v - q * dn)
+            fl = set()
+            for t in xs:
+                f = float(t)                                  # exact: at most 27 significant bits
+                fl.add(f)
+            for t in (v, v + up / 2, v - dn / 2, v + up, v - dn):
+                f = float(t)
+                fl.add(math.nextafter(f, math.inf))
+                fl.add(math.nextafter(f, -math.inf))
+            for f in sorted(fl):
+                for sg in (1.0, -1.0):
+                    yield dict(kind='float', x=(sg * f).hex())
+    if i == 0:
+        far = [5e-324, 2.0 ** -200, 2.0 ** -151, 2.0 ** -150, 2.0 ** -149, 2.0 ** 127, 2.0 ** 128, 2.0 ** 129, 1e300, 1.7976931348623157e308,
+               3.4028234663852886e38, 3.4028235677973366e38, 3.4028235677973362e38, 3.402823567797337e38, 0.1, 1 / 3, math.pi, 1e-40, 1e-45, 7e-46]
+        for f in far:
+            for sg in (1.0, -1.0):
+                yield dict(kind='float', x=(sg * f).hex())
+    for _ in range(3000 if quick else 20000):
+        # random doubles: full 52-bit mantissa, exponent over the single range and a little beyond
+        f = math.ldexp(1 + rnd.getrandbits(52) / (1 << 52), rnd.randint(-160, 130))
+        yield dict(kind='float', x=(f if rnd.getrandbits(1) else -f).hex())
+
+
 def _split(v):
     """hash(int) reduces modulo 2**61-1, so wide patterns are hashed as 60-bit limbs (v + 2**63 and v + 4 must not collide)."""
     m = (1 << 60) - 1
     return (v >> 120, (v >> 60) & m, v & m)
 
 
-JUDGES = {'pattern': judge_pattern, 'c2': judge_c2, 'arith': judge_arith, 'fxp': judge_fxp}
+JUDGES = {'pattern': judge_pattern, 'c2': judge_c2, 'arith': judge_arith, 'fxp': judge_fxp, 'float': judge_float}
 CASE_TIMEOUT = 30    # seconds; the slowest case on the unchanged tree takes a few milliseconds
 
 
@@ -724,6 +860,10 @@ def run_check(run, tier, seed, shard):
     run.assume('only exactly representable values are judged for encode/convert (the statement says "every representable value"); '
                'conversion of a value that the target format cannot hold exactly is counted as not_representable, not judged')
     run.assume('NaN: only "is a NaN" is compared (payloads excepted)')
+    run.assume('Python floats that are not singles: FloatingPointHelper.sp_to_ieee754(_parts) documents "the IEEE 754 representation of v" and rounds, '
+               'so it is compared with the platform (struct \'<f\', round to nearest even, overflow -> infinity); sp_to_ieee754_parts is judged by the '
+               'word s<<31 + e<<23 + m its parts denote (parts (s,0,2**23) are the smallest normal).  FPNum.convert truncates by design '
+               '(reducePrecisionWithRounding is the separate rounding step) and stays judged on representable values only')
     run.assume('the round trip pattern -> FPNum -> pattern is judged only when the decode stage was right for that pattern; a wrong decode is '
                'reported once, as a decode failure, and the encoder is still judged from the struct float')
     run.assume('ieee754_parts_to_sp/dp judged on finite fields only (ieee754_to_sp/dp handle inf/NaN before calling them)')
@@ -797,6 +937,21 @@ def run_check(run, tier, seed, shard):
             yield c
     sweep('fixedpoint_helper', fx(), lambda c: c['x'] != 0 or c['y'] != 0, lambda c: hash((4, c['iw'], c['fw'], c['x'], c['y'])), 20011)
     run.extra['fixedpoint_formats'] = fmts_seen
+    # (e) Python floats that are not singles, around every single-precision boundary
+    fclasses = {}
+
+    def fl():
+        for c in float_cases(tier, seed, shard):
+            yield c
+    def fkey(c):
+        return hash((5,) + _split(struct.unpack('<Q', struct.pack('<d', float.fromhex(c['x'])))[0]))
+    def fnt(c):
+        x = float.fromhex(c['x'])
+        needs_rounding = ref_float('sp', platform_sp(x)) != x
+        fclasses['needs_rounding' if needs_rounding else 'exactly_a_single'] = fclasses.get('needs_rounding' if needs_rounding else 'exactly_a_single', 0) + 1
+        return needs_rounding
+    sweep('floats_around_sp_boundaries', fl(), fnt, fkey, 9973)
+    run.extra['float_neighbourhood_inputs'] = fclasses
     run.extra['sections'] = sect
     for name, s in sect.items():
         if s['evaluations'] == 0 and not run.too_many:
